@@ -137,14 +137,19 @@ structure Quirks where
   different signs the divisor is added to the truncated remainder even if that remainder
   is zero (`-4 % 2` gives `2`) -/
   remZeroSign : Bool
-  /-- evaluator, `Operator::eval` / `BinOp::eval` (`value/operator.rs`, `sass/value.rs`):
-  an undefined relational/multiplicative operation on non-numbers is not an error but is
-  kept as an unevaluated value (`(true < 2) == 1` gives `false`) -/
+  /-- evaluator, before 364945a, `Operator::eval` `cmp`: a relational operator on operands
+  that are neither two numbers nor strings (booleans involved) was not an error but was
+  kept as an unevaluated value (`(true < 2) == 2` gave `false`) -/
   undefDeferred : Bool
+  /-- evaluator, `Operator::eval` (`cmp` since 364945a, `Multiply`/`Modulo` arms) +
+  `BinOp::eval`: when an operand is a string (or a kept operation) a relational or
+  multiplicative operation is kept as an unevaluated value instead of the error
+  Undefined operation (`((true + 1) < 2) == 2` gives `false`) -/
+  undefKept : Bool
   deriving DecidableEq, Repr
 
-def spec : Quirks := ⟨false, false, false, false⟩
-def asis : Quirks := ⟨true, true, true, true⟩
+def spec : Quirks := ⟨false, false, false, false, false⟩
+def asis : Quirks := ⟨true, true, true, true, true⟩
 
 /-- the layer whose `fold_many0` picks the operator up -/
 def rsLvl (q : Quirks) : BOp → Nat
@@ -258,16 +263,19 @@ def modOp (q : Quirks) (a b : Int) : Int :=
   else Int.fmod a b
 
 /-- a relational operator on operands that are not both numbers: Sass raises
-"Undefined operation"; `Operator::eval`'s `cmp` returns `None` and `BinOp::eval` keeps the
-operation as a value (flag `undefDeferred`) -/
+"Undefined operation".  The code keeps the operation as a value when an operand is a string
+or a kept operation (flag `undefKept`), and before 364945a also when only booleans and
+numbers are involved (flag `undefDeferred`). -/
 def relBad (q : Quirks) (a b : Val) : Res :=
-  if q.undefDeferred then (if a = .opq ∧ b = .opq then .unk else .ok .opq) else .err
+  if a = .opq ∨ b = .opq then
+    (if q.undefKept then (if a = .opq ∧ b = .opq then .unk else .ok .opq) else .err)
+  else if q.undefDeferred then .ok .opq else .err
 
 /-- `*`/`%` on operands that are not both numbers: Sass raises; the `Multiply`/`Modulo`
 arms keep the operation when both operands are `valid_operand` (numbers, strings,
 operations), i.e. when no boolean is involved -/
 def mulBad (q : Quirks) (a b : Val) : Res :=
-  if q.undefDeferred && !isBool a && !isBool b then .ok .opq else .err
+  if q.undefKept && !isBool a && !isBool b then .ok .opq else .err
 
 /-- strict binary operators on two evaluated operands -/
 def applyOp (q : Quirks) (o : BOp) (x y : Res) : Res :=
@@ -301,7 +309,7 @@ def eval (q : Quirks) : Ex → Res
     match eval q e with
     | .ok (.num n) => .ok (.num (-n))
     | .ok (.bool _) => .unk
-    | .ok .opq => if q.undefDeferred then .unk else .ok .opq
+    | .ok .opq => if q.undefKept then .unk else .ok .opq
     | x => x
   | .not e =>
     match eval q e with
